@@ -53,7 +53,27 @@ def rule_evalop(fx, rep):
         rep.violation("C16-CONE", v["key"].replace("C04-EVALOP/", "C16-CONE/evalop/"), v["msg"] + " (the evaluation then does not complete, or wraps, for a legal position)", v["site"])
     rep.obligations += sub.obligations
     rep.discharged += sub.discharged
-    rep.rule("C16-CONE/evalop", sub.obligations, 0, not vs, "score arithmetic at the evaluation's own call sites (shared with C04-EVALOP)")
+    # an arithmetic right shift of the signed blended value rounds towards minus infinity: x >> 1 of 887 is 443, of -887 it is
+    # -444, so a position and its colour-mirrored twin no longer evaluate to exact negatives
+    shifts = []
+    for nm in sorted(fx.cone(roots)):
+        eb = fx.bodies[nm]
+        if not norm(eb.name).startswith("engine::eval::") or "phased_eval::" in norm(eb.name):
+            continue  # the packed word's own decoders shift by design (C16-PACK)
+        for bb, j, st in eb.stmts():
+            rv = st.get("rv")
+            if st["k"] == "assign" and rv and rv["k"] == "binop" and rv["op"].replace("WithOverflow", "").replace("Unchecked", "") == "Shr" and "pl" in rv["a"]:
+                pl = rv["a"]["pl"]
+                base_ty = eb.local_ty(pl["l"])
+                e = deep_strip(eb.expr(rv["a"], expand_named=True, at=bb))
+                signed_score = any(t in base_ty for t in ("WhiteEval", "player_eval::Eval")) or any(isinstance(x, tuple) and x and x[0] == "call" and "for_phase" in str(x[1]) for x in walk(e))
+                if signed_score:
+                    shifts.append((eb, st.get("line")))
+    for eb, line in shifts:
+        rep.obligation(False)
+        rep.violation("C16-CONE", f"C16-CONE/evalop/shift/{norm(eb.name).split('::')[-1]}", f"`{eb.name}` (line {line}) scales a signed score with an arithmetic right shift: it rounds towards minus infinity, so "
+                      "the evaluation of a position and of its colour-mirrored twin are no longer exact negatives (and the result can leave the interval between the two pure scores)", {"fn": eb.name, "file": eb.file, "line": line})
+    rep.rule("C16-CONE/evalop", sub.obligations, 0, not vs and not shifts, "score arithmetic at the evaluation's own call sites (shared with C04-EVALOP); no right shift of a signed score")
 
 
 def rule_cone(fx, rep):
@@ -1191,6 +1211,8 @@ PH = "src/engine/eval/phased_eval.rs"
 PS = "src/engine/eval/piece_square_tables.rs"
 PA = "src/engine/eval/params.rs"
 MUTANTS = [
+    {"name": "pawnless positions halved with a signed right shift (seed C16-13a)", "expect": "C16-CONE/evalop/shift",
+     "edits": __import__("shared_mutants").edits_from_patch("seeded/C16-13a/patch.diff")},
     {"name": "blockade square of a passed pawn as occupancy().south() for both colours (seed C16-12a)", "expect": "C16-MIRROR/fixed-direction",
      "edits": __import__("shared_mutants").edits_from_patch("seeded/C16-12a/patch.diff")},
     {"name": "blended score faded towards zero by plain i16 multiplication (seed C16-11a)", "expect": "C16-CONE/evalop",
